@@ -268,7 +268,40 @@ def corpus_cases():
     return out
 
 
+def e2e_rule_sessions(chk, binp):
+    """the decision as the listener makes it: requests on kept-alive connections whose URL differs only in a query parameter the
+    rules name, and the rule set replaced between identical requests - the verdict is the declared one for the rule set in force and
+    the URL at hand, whatever the connection carried before"""
+    import e2e
+    import pipe
+    import pipegen
+    stack = e2e.Stack(binp)
+    try:
+        callers = pipe.Callers(stack)
+        runner = pipe.Runner(chk, stack, callers)
+        for sess in pipegen.query_rule_sessions(callers):
+            done = runner.run_session(sess, chk.count)
+            chk.count("listener_verdicts_on_kept_connections", len(done))
+
+        def oracle(chk_, o, m):
+            doc = o["case"]["env"]["imds"]
+            granted = doc["rules"]["privileges"][0]["queryParameters"]["resource"]
+            q = o["req"]["target"].split("resource=")[1].split("&")[0]
+            allowed = q.lower() == granted or doc["mode"] == "audit"
+            relayed = sum(o["bytes"].values()) > 0
+            chk_.case(nontrivial_key=("listener", doc["id"], q, relayed, o.get("session_index")))
+            if relayed != allowed:
+                chk_.violation("decision differs from the declared rule semantics", pipe.Runner.describe(None, o),
+                               expected="relayed" if allowed else "refused", observed="relayed" if relayed else "refused")
+        runner.finish(oracle)
+    finally:
+        stack.close()
+
+
 def run(chk):
+    import e2e
+    if not e2e.in_netns():
+        e2e.reexec_in_netns()
     rng = vlib.Rng(chk.seed)
     chk.prove()
     dok = chk.driver()
@@ -276,6 +309,8 @@ def run(chk):
     if not ok:
         chk.broken.append({"kind": "harness", "name": "agent harness build", "why": out[-1500:]})
         return
+    if dok:
+        e2e_rule_sessions(chk, binp)
     n = 2500 if chk.tier == "quick" else 120000
     cases = []
     st = {}
